@@ -183,15 +183,15 @@ K0 == KI(0)
 FalsyQuick == { K0, K(FltV(0, 1)), K(BoolV(FALSE)), P(<< K0, x >>), B("Quotient", K0, y) }
 FalsyMore  == { P(<< x, K0 >>), P(<< K0 >>), S(<< K0 >>), B("Quotient", P(<< K0, x >>), z) }
 FalsyOps == IF Quick THEN FalsyQuick ELSE FalsyQuick \cup FalsyMore
-NonFalsy == IF Quick THEN { y } ELSE { y, K1, S(<< y, z >>) }
-\* << operand of the k-th occurrence, operand of the other occurrences >>; the K1 pairs are
-\* the same split without a falsy operand.  quick: the falsy operand at the first resp. the
-\* last occurrence (SplitKs), which for two occurrences is both orders; thorough: at every
-\* occurrence, and also as the operand of all the OTHER occurrences
+NonFalsy == { y }
+\* << operand of the k-th occurrence, operand of the other occurrences >>; the K1 pair is the
+\* same split without a falsy operand.  quick: the falsy operand at the first resp. the last
+\* occurrence (SplitKs), which for two occurrences is both orders; thorough: at every
+\* occurrence, also as the operand of all the OTHER occurrences, and two different falsy ones
 SplitPairs == { << u, v >> : u \in FalsyOps, v \in NonFalsy } \cup { << K1, y >> }
               \cup (IF Quick THEN {}
-                    ELSE { << v, u >> : u \in FalsyOps, v \in NonFalsy }
-                         \cup { << y, K1 >>, << P(<< K0, x >>), B("Quotient", K0, y) >> })
+                    ELSE { << v, u >> : u \in FalsyQuick, v \in NonFalsy }
+                         \cup { << P(<< K0, x >>), B("Quotient", K0, y) >> })
 BaseSub(p) == [n \in PVars(p) |-> CASE n = "a" -> x [] n = "b" -> z [] OTHER -> V("w")]
 SplitKs(p, n) == IF Tier = "thorough" THEN 1..Occ(p, n) ELSE {1, Occ(p, n)}
 SplitTargets(p) ==
